@@ -1371,6 +1371,94 @@ func tsStream(c *cli.Ctx, r *emit.Rng) error {
 			w.Add(emit.Tup("2", "0", "0", ids, arr0, familiesTerm(out0.mfs), kindsTerm(out0.kinds), arr1, familiesTerm(out1.mfs), kindsTerm(out1.kinds)), true, tags...)
 		}
 	}
+	// a sample WITHOUT timestamp next to explicit boundary timestamps of the same series: the missing one sorts last
+	for _, explicit := range []int64{9223372036854775807, 9223372036854775806, -9223372036854775808, 0, -1} {
+		for variant := 0; variant < 4; variant++ {
+			builtin := variant%2 == 1
+			var labels, vals []string
+			if variant >= 2 {
+				labels, vals = []string{"a"}, []string{"x"}
+			}
+			d := prometheus.NewDesc("series", "h", labels, nil)
+			ex := explicit
+			mk := func(rc *recorder, j int) prometheus.Metric { // j = 0: no timestamp, 1: explicit, 2: explicit-1 or +1
+				x := rc.newRec(false)
+				var t *int64
+				switch j {
+				case 1:
+					t = &ex
+				case 2:
+					o := ex - 1
+					if ex < 0 && ex != -1 {
+						o = ex + 1
+					}
+					t = &o
+				}
+				if builtin {
+					m := prometheus.MustNewConstMetric(d, prometheus.GaugeValue, float64(j+1), vals...)
+					if t != nil {
+						m = prometheus.NewMetricWithTimestamp(time.UnixMilli(*t), m)
+					}
+					return &wrapMetric{r: rc, x: x, inner: m}
+				}
+				m := &dto.Metric{TimestampMs: t}
+				if len(labels) > 0 {
+					m.Label = []*dto.LabelPair{lp("a", "x")}
+				}
+				setPayload(m, 1, j+1)
+				return &advMetric{r: rc, x: x, d: d, content: m}
+			}
+			build := func(order []int) func(rc *recorder) []prometheus.Metric {
+				return func(rc *recorder) []prometheus.Metric {
+					var ms []prometheus.Metric
+					for _, j := range order {
+						ms = append(ms, mk(rc, j))
+					}
+					return ms
+				}
+			}
+			tag := "custom-metric"
+			if builtin {
+				tag = "NewMetricWithTimestamp"
+			}
+			// Registry.Gather, both arrival orders of (missing, explicit) and all orders of three samples
+			for _, oo := range [][2][]int{{{0, 1}, {1, 0}}, {{0, 1, 2}, {1, 2, 0}}, {{0, 1, 2}, {2, 0, 1}}, {{1, 0, 2}, {2, 1, 0}}} {
+				arr0, out0, ids := gatherOrdered(false, build(oo[0]))
+				arr1, out1, _ := gatherOrdered(false, build(oo[1]))
+				if len(out0.kinds)+len(out1.kinds) > 0 {
+					fl.add(w.Len(), fmt.Sprintf("samples of one series with distinct timestamps: error kinds %v / %v", out0.kinds, out1.kinds))
+				}
+				w.Add(emit.Tup("2", "0", "0", ids, arr0, familiesTerm(out0.mfs), kindsTerm(out0.kinds), arr1, familiesTerm(out1.mfs), kindsTerm(out1.kinds)),
+					true, "missing-vs-explicit-timestamp", tag, fmt.Sprintf("samples:%d", len(oo[0])))
+			}
+			// Gatherers{r1, r2} and {r2, r1}: r1 holds the sample without timestamp, r2 the explicit one
+			for flip := 0; flip < 2; flip++ {
+				regs := make([]*prometheus.Registry, 2)
+				answers := make([]string, 2)
+				var gs prometheus.Gatherers
+				for k := 0; k < 2; k++ {
+					k := k
+					j := k
+					if flip == 1 {
+						j = 1 - k
+					}
+					regs[k] = prometheus.NewRegistry()
+					rc := newRecorder()
+					regs[k].MustRegister(&advCollector{metrics: []prometheus.Metric{mk(rc, j)}})
+					gs = append(gs, prometheus.GathererFunc(func() ([]*dto.MetricFamily, error) {
+						mfs, err := regs[k].Gather()
+						answers[k] = emit.Pair(familiesTerm(mfs), kindsTerm(errKinds(err)))
+						return mfs, err
+					}))
+				}
+				out, pan := gatherWithWatchdog(gs)
+				if pan != "" || len(out.kinds) > 0 {
+					fl.add(w.Len(), fmt.Sprintf("Gatherers over two registries with distinct samples of one series: panic %q, error kinds %v", pan, out.kinds))
+				}
+				w.Add(emit.Tup("1", "0", emit.L(answers), familiesTerm(out.mfs), kindsTerm(out.kinds)), true, "missing-vs-explicit-timestamp", tag, "via:gatherers")
+			}
+		}
+	}
 	if len(fl.list) > 0 {
 		w.Extra["direct_failures"] = fl.list
 	}
